@@ -271,6 +271,48 @@ SUB_TYPES = {}      # subclass of a built-in type -> (printed constructor name, 
 CALL_TYPES = {}     # type -> function(v) -> (name, args, [(kw, value)...]) for user types printed through pretty_call
 
 
+def std_term(v, sort):
+    """['std', kind, printed name, a, b] for the standard-library containers Printers!PStd transcribes."""
+    import collections
+    import types
+    t = type(v)
+    mt = lambda x: model_term(x, sort)   # noqa
+    opairs = lambda d: [[mt(k), mt(x)] for k, x in d.items()]   # noqa  (a list of pairs: order kept)
+
+    def pairs(d):
+        # the dict handed to pretty_call_alt is printed by pretty_dict: with sort_dict_keys its keys are sorted
+        term = mt(dict(d))
+        if term[0] != 'dict':
+            raise ValueError('keys cannot be sorted')
+        return term[1]
+    cd = pyterm.codes
+    if t is collections.OrderedDict:
+        return ['std', 'OrderedDict', cd('collections.OrderedDict'), opairs(v), []]
+    if t is collections.deque:
+        return ['std', 'deque', cd('collections.deque'), [mt(x) for x in v], [] if v.maxlen is None else [mt(v.maxlen)]]
+    if t is collections.Counter:
+        try:
+            items = v.most_common()
+        except TypeError:
+            items = list(v.items())
+        return ['std', 'Counter', cd('collections.Counter'), pairs(dict(items)), []]
+    if t is types.MappingProxyType:
+        return ['std', 'mappingproxy', cd('mappingproxy'), pairs(dict(v)), []]
+    if t is collections.defaultdict and v.default_factory is None:
+        return ['std', 'defaultdict', cd('collections.defaultdict'), pairs(dict(v)), ['none']]
+    if t is collections.ChainMap and all(type(m) is dict for m in v.maps):
+        return ['std', 'ChainMap', cd('collections.ChainMap'), [mt(m) for m in v.maps], []]
+    if t is types.SimpleNamespace:
+        return ['std', 'SimpleNamespace', cd('types.SimpleNamespace'), [[cd(k), mt(v.__dict__[k])] for k in sorted(v.__dict__)], []]
+    if isinstance(v, tuple) and hasattr(t, '_fields') and t.__module__ not in ('builtins', 'time', 'os', 'sys', 'posix'):
+        mod = t.__module__
+        name = t.__qualname__ if mod in ('builtins', '__main__') else '%s.%s' % (mod, t.__qualname__)
+        return ['std', 'namedtuple', cd(name), [[cd(f), mt(x)] for f, x in zip(t._fields, v)], []]
+    if isinstance(v, BaseException) and t.__module__ == 'builtins':
+        return ['std', 'exception', cd(t.__qualname__), [mt(a) for a in v.args], []]
+    return None
+
+
 def model_term(v, sort):
     """Value term for Printers.tla: PyTerm value term with the repr text of number leaves attached,
     comment()/trailing_comment() wrappers as ['cm'|'tcm', text, term], registered user types as ['call', ...]."""
@@ -293,6 +335,9 @@ def model_term(v, sort):
         else:
             inner = base(v)
         return ['sub', pyterm.codes(qual), model_term(inner, sort)]
+    std = std_term(v, sort)
+    if std is not None:
+        return std
     if t in CALL_TYPES:
         name, args, kws = CALL_TYPES[t](v)
         return ['call', pyterm.codes(name), [model_term(a, sort) for a in args],
@@ -353,8 +398,12 @@ def printers_binding(chk, vals, msls=(1000,), name='printers', per_value=None):
                         out = P.pformat(v, **cfg)
             except (Exception, common.Timeout):
                 continue
+            try:
+                mterm = model_term(v, cfg['sort_dict_keys'])
+            except (ValueError, TypeError):
+                continue        # a value the model has no term for
             cid = len(cases) + 1
-            cases.append({'id': cid, 'val': model_term(v, cfg['sort_dict_keys']), 'indent': cfg['indent'], 'width': w,
+            cases.append({'id': cid, 'val': mterm, 'indent': cfg['indent'], 'width': w,
                           'depth': -1 if cfg['depth'] is None else cfg['depth'], 'ribbon': cfg['ribbon_width'],
                           'msl': cfg['max_seq_len'], 'text': pyterm.codes(out)})
             meta[cid] = {'value': repr(v)[:200], 'config': cfg, 'output': out[:300]}
